@@ -102,7 +102,7 @@ ADD_TEXT = {
  'C09': 'Sink (filter, handleLog, cached timestamp string, enable/disable order), the AsyncSink back-end re-framing loop and the record formatting (every append inside its source object) are under contract as well.',
  'C12': 'Server::Impl::commitRespond (order, once, nothing after the closing response) and Server::Impl::onTcpReceived (one context per request, the closing request is the last one, the read side stays open while a response is owed, clean drop on parse failure); the parser contract also states that a declared body is part of what is consumed.',
  'C13': 'Terminal::Impl::onRecvString (scanner restarted per segment and per key, every completed key dispatched to exactly its editor action once). Telnetd::Impl::onTcpReceived framing loop: bounds of every byte looked at, complete-negotiation-or-wait, progress (bounded domain: 64 pending bytes).',
- 'C14': 'Rpc::request / onRecvRespond / onRequestTimeout: one fresh id per request for callback, deadline and message; an outstanding id is completed exactly once, unknown / duplicate / late ids are ignored.',
+ 'C14': 'Rpc::request / onRecvRespond / onRequestTimeout: one fresh id per request for callback, deadline and message; an outstanding id is completed exactly once, unknown / duplicate / late ids are ignored. Proto::onRecvJson: no exception for any JSON content, at most one callback per message, recursion into batch elements bounded by one level.',
  'C15': 'UdpSocket::onSocketEvent hands the receive callback only bytes that recvfrom stored; Deserializer::checkSize / setEndian are under contract.',
  'C18': 'Condition<int>, Broadcast and the Scheduler bookkeeping around the context switches (makeRoutineReady, resume, cancel, switchToRoutine, wait, yield, join; swapcontext as a direction-specific stub) are under contract as well.',
 }
@@ -116,7 +116,7 @@ FIX_NOTE = {
  'C09': ('Sink level filter, back-end re-framing, file roll-over and interleavings are not decided.', 'The produced text, file roll-over and interleavings are not decided.'),
  'C12': ('and the rest of the server pipeline (onTcpReceived, connection close) are not decided', 'and onTcpSendCompleted / the handler chain are not decided; at most 10^9 bytes pending per receive call'),
  'C13': ('telnet negotiation (telnetd.cpp), ', 'content-level telnet framing, '),
- 'C14': ('Rpc request bookkeeping (unordered_map), PacketProto,', 'the Rpc service side, re-entrant completion callbacks, PacketProto,'),
+ 'C14': ('Rpc request bookkeeping (unordered_map), PacketProto, Proto::onRecvJson field extraction and encoder/decoder value round trip are not covered.', 'The Rpc service side, re-entrant completion callbacks, PacketProto, the JSON values extracted by Proto::onRecvJson and the encoder/decoder value round trip are not covered.'),
  'C15': ('DnsRequest::onUdpRecv / request / cancel bookkeeping (std::map, callbacks) is not under contract', 'DnsRequest::onUdpRecv / request / cancel bookkeeping (std::map, callbacks) is not under contract (onUdpRecv was attempted; the harness is beyond the installed solvers, DESIGN I.8)'),
  'C18': ('The scheduler, Condition/Broadcast and the whole-run induction are not covered.', 'Scheduler::schedule / cleanup / create, the context switch itself and the whole-run induction are not covered.'),
 }
